@@ -96,6 +96,9 @@ def norm_tx(x):
     }
 
 
+OPTYPE = {"sbo": 1, "do": 2, "dona": 3}
+
+
 def norm_cb(c):
     t, k, n = c[0], c[1], c[2]
     ints, strs = [], []
@@ -109,7 +112,10 @@ def norm_cb(c):
             elif isinstance(v, list):
                 walk(v)
             elif isinstance(v, str):
-                strs.append(v)
+                if k == "ctl" and v in OPTYPE:
+                    ints.append(OPTYPE[v])      # operate type as a number: sbo=1, do=2, dona=3
+                else:
+                    strs.append(v)
             else:
                 strs.append(s(v))
     walk(c[3:])
